@@ -135,20 +135,44 @@ def cbmc_cmd(q, outd, extra):
     if q.new_limit is not None: cmd += ['-DVP_NEW_LIMIT=%d' % q.new_limit]
     return cmd + extra
 
+_rt_loops = {}
+def rt_loop_ids(q):
+    """loop ids of the runtime model's own loops (vp_memcpy.0, X_vp_free.0, ...), listed once per rt module set"""
+    key = tuple(q.rt)
+    with keyed_lock('rtloops'):
+        if key not in _rt_loops:
+            stub = os.path.join(WORK, 'rtloops_%d.c' % os.getpid())
+            os.makedirs(WORK, exist_ok=True)
+            open(stub, 'w').write('#include "vp_rt.h"\nvoid vp_init_globals(void) {}\nuint32_t vp_typeid_for(uint8_t* t) { return 0; }\nint main(void) { uint8_t a[2], b[2]; vp_memcpy(a, b, 2); vp_memmove(a, b, 2); vp_memset(a, 0, 2); return vp_ctpop64(1) + vp_ctlz_n(1, 8) + vp_cttz_n(1, 8); }\n')
+            ids = []
+            for attempt in range(3):
+                r = sh(['cbmc', stub] + rt_files(q) + ['-I', os.path.join(ROOT, 'rt'), '--show-loops', '--json-ui'], timeout=300)
+                try:
+                    for o in json.loads(r['out']):
+                        for l in o.get('loops', []) if isinstance(o, dict) else []: ids.append(l['name'])
+                    break
+                except ValueError: continue
+            if not ids: raise BuildError('cannot list runtime-model loops: ' + r['err'][-500:])
+            _rt_loops[key] = [i for i in ids if re.match(r'(vp_|X_)', i)]
+        return _rt_loops[key]
+
 def loops_for(q, outd):
-    """map (function-name pattern -> bound) to --unwindset entries using cbmc --show-loops"""
-    pats = list(q.unwindset) + [(r'^(vp_|X_)', q.rt_unwind)]
-    pats = [(p, b) for p, b in pats if b]
-    if not pats: return []
-    r = sh(cbmc_cmd(q, outd, ['--show-loops', '--json-ui']), timeout=300)
-    try: js = json.loads(r['out'])
-    except ValueError: return []
-    us = []
-    for o in js:
-        for l in o.get('loops', []) if isinstance(o, dict) else []:
-            name = l['name']; fn = name.rsplit('.', 1)[0]
-            for p, b in pats:
-                if re.search(p, fn): us.append('%s:%d' % (name, b)); break
+    """--unwindset: runtime-model loops get q.rt_unwind; (function-name pattern -> bound) entries of q.unwindset are
+    resolved against cbmc --show-loops of the generated program"""
+    us = ['%s:%d' % (i, q.rt_unwind) for i in rt_loop_ids(q)]
+    if q.unwindset:
+        js = None
+        for attempt in range(3):
+            r = sh(cbmc_cmd(q, outd, ['--show-loops', '--json-ui']), timeout=300)
+            try: js = json.loads(r['out']); break
+            except ValueError: continue
+        if js is None: raise BuildError('cbmc --show-loops failed: ' + r['err'][-500:])
+        for o in js:
+            for l in o.get('loops', []) if isinstance(o, dict) else []:
+                name = l['name']; fn = name.rsplit('.', 1)[0]
+                if re.match(r'(vp_|X_)', fn): continue
+                for p, b in q.unwindset:
+                    if re.search(p, fn): us.append('%s:%d' % (name, b)); break
     return ['--unwindset', ','.join(us)] if us else []
 
 SOLVERS = {
@@ -295,6 +319,7 @@ def run_query(pid, q, wdir, tier, findings):
     try:
         tud = build_tu(q, wdir)
         outd = translate(q, tud)
+        us = loops_for(q, outd)
     except BuildError as e:
         rec['verdict'] = 'build_error'; rec['error'] = str(e); rec['wall_s'] = round(time.time() - t0, 2)
         return rec
@@ -303,7 +328,6 @@ def run_query(pid, q, wdir, tier, findings):
     rec['gil_functions'] = sorted(gil_functions(tud))
     timeout = q.timeout or (120 if tier == 'quick' else 900)
     mem = q.mem_gb or MEM_CAP_GB
-    us = loops_for(q, outd)
     # witness twin: must be able to reach the end of the harness (guards against vacuous passes)
     wit = None; wr = None
     for sv, cap in ((SOLVERS['minisat'], min(20, timeout)), (SOLVERS['kissat'], timeout)):
@@ -446,7 +470,7 @@ def check(pid, tier, only=None, keep=False, jobs=None, list_only=False):
                                description=f['description'], inputs=f['inputs'], native=f['native'], native_tail=f['native_tail']), open(rp, 'w'), indent=1)
                 violations.append((rec['query'], f['label'], rp))
             elif f['status'] == 'bound_too_small':
-                problems.append('BOUND-TOO-SMALL query=%s (%s): an unwinding assertion failed, the query does not cover its stated bound' % (rec['query'], f['description']))
+                problems.append('BOUND-TOO-SMALL query=%s (%s %s): an unwinding assertion failed, the query does not cover its stated bound' % (rec['query'], f.get('property'), f['description']))
             else:
                 problems.append('UNCONFIRMED query=%s label=%s: solver counterexample did not reproduce natively (%s)' % (rec['query'], f['label'], (f.get('native_tail') or '')[-200:].replace('\n', ' | ')))
     printed = set()
